@@ -2,7 +2,7 @@
 // the reference model's current state (generation by construction, no rejection).  Index
 // mapping is monotone so that shrinking the seeds moves towards simpler operations.
 
-use crate::model::{Model, Rank};
+use crate::model::{ConnSt, Model, Rank};
 use crate::sim::CloseKind;
 
 pub const SEED_W: usize = 12;
@@ -457,12 +457,31 @@ pub fn gen_op(m: &Model, p: &Profile, seed: &OpSeed) -> Option<Op> {
                 }
             }
         }
-        v.push(Op::Line(a, format!("USER u{} 0 * :Real c{}", a, a)));
+        // (the claimant sometimes logs in as a user from the configuration)
+        let cfg_name = if !p.reg_usernames.is_empty() && s.chance(35) { Some(p.reg_usernames[s.pick(p.reg_usernames.len())].clone()) } else { None };
+        if let (Some(_), true) = (&cfg_name, p.reg_passwords.len() > 1) {
+            v.push(Op::Line(a, format!("PASS {}", p.reg_passwords[s.pick(p.reg_passwords.len())])));
+        }
+        v.push(Op::Line(a, format!("USER {} 0 * :Real c{}", cfg_name.clone().unwrap_or_else(|| format!("u{}", a)), a)));
         if capneg {
             v.push(Op::Line(a, "CAP END".to_string()));
         }
         // what the refused connection does next
-        match s.pick(7) {
+        match s.pick(10) {
+            7 | 8 | 9 => {
+                // it retries under another user name and another nick: nothing of the refused
+                // attempt (user name, "configured user" status) may stick
+                let other = if cfg_name.is_some() || p.reg_usernames.is_empty() || s.chance(50) {
+                    format!("u{}x", a)
+                } else {
+                    p.reg_usernames[s.pick(p.reg_usernames.len())].clone()
+                };
+                v.push(Op::Line(a, format!("USER {} 0 * :Retry c{}", other, a)));
+                let free: Vec<String> = nicks.iter().filter(|x| **x != n && !m.users.contains_key(*x)).cloned().collect();
+                if !free.is_empty() {
+                    v.push(Op::Line(a, format!("NICK {}", free[s.pick(free.len())])));
+                }
+            }
             0 => v.push(Op::Line(a, GATED[s.pick(GATED.len())].to_string())),
             1 => v.push(Op::Line(a, format!("NICK {}", nicks[s.pick(nicks.len())]))),
             2 => v.push(Op::Close(a, CloseKind::Drop)),
@@ -496,8 +515,49 @@ pub fn gen_op(m: &Model, p: &Profile, seed: &OpSeed) -> Option<Op> {
             return Some(Op::Close(c, if s.chance(30) { CloseKind::HalfClose } else { CloseKind::Drop }));
         }
         let nicks = if p.reg_nicks.is_empty() { &p.nicks } else { &p.reg_nicks };
+        // a connection that has sent NICK and USER and is still not registered was refused at
+        // completion (nick taken, wrong password, mask): it typically retries with another user
+        // name, another nick or another password - whatever it tried before must not stick
+        if let ConnSt::Unreg { nick: Some(_), user: Some((un, _)), capneg: false, .. } = &m.conns[c].st {
+            if s.chance(50) {
+                let line = match s.pick(5) {
+                    0 | 1 => {
+                        let other = if p.reg_usernames.contains(un) || p.reg_usernames.is_empty() || s.chance(40) {
+                            format!("u{}x", c)
+                        } else {
+                            p.reg_usernames[s.pick(p.reg_usernames.len())].clone()
+                        };
+                        format!("USER {} 0 * :Retry c{}", other, c)
+                    }
+                    2 | 3 => {
+                        let free = free_nicks(m, p);
+                        if free.is_empty() {
+                            format!("NICK {}", nicks[s.pick(nicks.len())])
+                        } else {
+                            format!("NICK {}", free[s.pick(free.len())])
+                        }
+                    }
+                    _ => {
+                        if p.reg_passwords.is_empty() {
+                            "PASS nopassword".to_string()
+                        } else {
+                            format!("PASS {}", p.reg_passwords[s.pick(p.reg_passwords.len())])
+                        }
+                    }
+                };
+                return Some(Op::Line(c, line));
+            }
+        }
         let line = match s.pick(14) {
-            0 | 1 | 2 => format!("NICK {}", nicks[s.pick(nicks.len())]),
+            0 | 1 | 2 => {
+                // a nick somebody holds is asked for on purpose (refusal at completion)
+                let taken: Vec<&String> = m.users.keys().collect();
+                if !taken.is_empty() && s.chance(35) {
+                    format!("NICK {}", taken[s.pick(taken.len())])
+                } else {
+                    format!("NICK {}", nicks[s.pick(nicks.len())])
+                }
+            }
             3 | 4 | 5 => {
                 let un = if !p.reg_usernames.is_empty() && s.chance(50) {
                     p.reg_usernames[s.pick(p.reg_usernames.len())].clone()
